@@ -100,7 +100,8 @@ static int iterReset(MPT_INTERFACE(iterator) *it)
 {
 	MPT_STRUCT(iteratorLinear) *d = MPT_baseaddr(iteratorLinear, it, _it);
 	d->pos = 0;
-	return d->elem;
+	/* negative values are error codes */
+	return d->elem > INT_MAX ? INT_MAX : (int) d->elem;
 }
 static const MPT_INTERFACE_VPTR(metatype) _vptr_linear_meta = {
 	{ iterConv },
